@@ -274,6 +274,16 @@ def cls_src(t, defs):
     pyname = info.get('pyname') or info['name']
     lines = ['@' + q('dataclass'), f'class {pyname}{base}:']
     meta = info.get('meta')
+    # optional `meta_steps`: the class's Meta arrives in several bindings, in this order — [{'via': 'inner' | 'load' | 'dump' | 'base',
+    # 'meta': {...}}, ...] ('inner': the inner Meta class, first step of a wizard class only; 'load' / 'dump': LoadMeta / DumpMeta(..).bind_to
+    # after the class statement; 'base': a BaseJSONWizardMeta subclass bound the same way).  `info['meta']` is then the merged result
+    # (a later binding wins), which is what the class model of the driver and own_meta() see.
+    steps = info.get('meta_steps')
+    if steps is not None:
+        inner_first = bool(steps) and steps[0]['via'] == 'inner'
+        assert not inner_first or wizard in (True, 'py', 'file')
+        meta = steps[0]['meta'] if inner_first else None
+        steps = steps[1:] if inner_first else steps
     if meta is not None and wizard in (True, 'py', 'file'):
         lines.append(f'    class _({q("JSONWizard")}.Meta):')
         items = meta_items(meta)
@@ -337,7 +347,16 @@ def cls_src(t, defs):
             lines.append(f'        self.{f["name"]} = {lit_src(f["post"])}')
     src = '\n'.join(lines) + '\n'
     tail = ''
-    if meta is not None and not wizard:
+    if steps is not None:
+        for sn, st in enumerate(steps):
+            assert st['via'] in ('load', 'dump', 'base'), st
+            args = ', '.join(f'{k}={v}' for k, v in meta_items(st['meta']))
+            if st['via'] == 'base':
+                tail += (f'_m{sn}_{info["name"]} = {q("type")}("Meta", ({q("BaseJSONWizardMeta")},), dict(__slots__=(), {args}))\n'
+                         f'_m{sn}_{info["name"]}.bind_to({info["name"]})\n')
+            else:
+                tail += f'_dw.{"LoadMeta" if st["via"] == "load" else "DumpMeta"}({args}).bind_to({info["name"]})\n'
+    elif meta is not None and not wizard:
         items = meta_items(meta)
         tail = f'_m_{info["name"]} = {q("type")}("Meta", ({q("BaseJSONWizardMeta")},), dict(__slots__=(), ' + \
                ', '.join(f'{k}={v}' for k, v in items) + f'))\n_m_{info["name"]}.bind_to({info["name"]})\n'
